@@ -495,6 +495,10 @@ Definition cdoc_of (d : doc) : option cdoc :=
     end in
   fold_right step (Some []) d.
 
+(* the text of a document a failure carries *)
+Definition render_doc_text (docgen : bool) (d : doc) : option str :=
+  match cdoc_of d with Some cd => render_console docgen true 100%N cd | None => None end.
+
 Definition render_message_text (docgen : bool) (msg : message) (s : state) (m : meta) : option str :=
   match render_message msg s m with
   | Some d => match cdoc_of d with Some cd => render_console docgen true 100%N cd | None => None end
